@@ -16,14 +16,16 @@ CONSTANTS EmitOn
 VARIABLES n, m, method, place, rel, cls
 vars == <<n, m, method, place, rel, cls>>
 MethodMap(a) == CASE a = "central" -> "3-point" [] a = "forward" -> "2-point" [] a = "complex" -> "cs"
-Places == {"nobounds", "interior", "near-face", "on-face", "corner"}
+\* the "-open" placements are half-open boxes: the LAST coordinate is unbounded on both sides (lb = -inf, ub = +inf) while the
+\* other coordinates keep the finite faces of the base placement (for n = 1: only the lower bound is infinite)
+Places == {"nobounds", "interior", "near-face", "on-face", "corner", "near-face-open", "on-face-open", "corner-open"}
 Init == /\ n \in 1..6 /\ m \in 1..5 /\ method \in {"central", "forward", "complex"} /\ place \in Places
         /\ rel \in {0, 1, 2}                 \* 0 = default step, 1 = 1e-4, 2 = 1e-2
         /\ cls \in {"Jacobian", "Gradient"} /\ (cls = "Gradient" => m = 1)
 Next == UNCHANGED vars
 Shape == IF cls = "Jacobian" THEN <<m, n>> ELSE IF n = 1 THEN <<>> ELSE <<n>>
 \* how many coordinates of x sit exactly on a bound
-OnBound == CASE place = "on-face" -> 1 [] place = "corner" -> n [] OTHER -> 0
+OnBound == CASE place = "on-face" -> 1 [] place = "corner" -> n [] place = "on-face-open" -> (IF n > 1 THEN 1 ELSE 0) [] place = "corner-open" -> n - 1 [] OTHER -> 0
 InvShape == Len(Shape) \in 0..2
 Emit == EmitOn => PrintT(<<"@@", ToJson([n |-> n, m |-> m, method |-> method, scipy |-> MethodMap(method), place |-> place, rel |-> rel, cls |-> cls, shape |-> Shape, onbound |-> OnBound])>>)
 =============================================================================
